@@ -196,13 +196,23 @@ func TestC14_Planted(t *testing.T) {
 			e = &bx.Match{Sel: bx.Sel{Parts: []string{"x"}}, Op: bx.OpEq, Lit: "1"}
 			root = m
 		}
+		oddKeys := false
+		if shape != 5 && shape != 6 && rapid.Bool().Draw(t, "oddKeys") {
+			// keys as users have them: the empty string, blanks, other scripts, digits (sorted as text), slashes
+			oddKeys = true
+			odd := []string{"", " ", "K", "a/b", "é", "10", "9", "~", "k", "\x00", "-"}
+			off := rapid.IntRange(0, len(odd)-1).Draw(t, "keyOffset")
+			for i, k := range m.Keys {
+				k.S = odd[(off+i)%len(odd)]
+			}
+		}
 		rend := bx.NewRenderer(bx.Zero{})
 		rend.NoLayout = true
 		text, _ := rend.Render(e)
 		c := &c14Case{EvalCase: *newEvalCase(text, e, root, Opts{}), Filter: filter}
 		got, want := c14Check(t, "TestC14_Planted", c)
 		r.Case(text+"\x00"+root.String(), !want.Singleton(), map[string]string{"expr": text, "elements": pattern, "outcome": got.String(), "admissible": want.String()},
-			fmt.Sprintf("entries:%d", n), "admissible:"+want.String(), fmt.Sprintf("filter:%v", filter))
+			fmt.Sprintf("entries:%d", n), "admissible:"+want.String(), fmt.Sprintf("filter:%v", filter), fmt.Sprintf("odd-keys:%v", oddKeys))
 	})
 }
 
